@@ -141,7 +141,11 @@ func stacklessWriteBrotli(ctx any) {
 	stacklessWriteBrotliOnce.Do(func() {
 		stacklessWriteBrotliFunc = stackless.NewFunc(nonblockingWriteBrotli)
 	})
-	stacklessWriteBrotliFunc(ctx)
+	if !stacklessWriteBrotliFunc(ctx) {
+		// The stackless queue is full (high load): compress on the
+		// caller's stack instead of silently producing no output.
+		nonblockingWriteBrotli(ctx)
+	}
 }
 
 func nonblockingWriteBrotli(ctxv any) {
